@@ -428,6 +428,11 @@ func (e *Engine) checkExit(run *Run, ex *Exit, blk *Block) {
 	// vacuity: some normal exit of the function must be reachable under the assumed contracts
 	if len(blk.All("ensures")) > 0 {
 		e.emitCover(st, name+"/cover:return", "a normal return is reachable (assumed contracts are not contradictory)")
+		// per return site: recorded by the baseline when reachable; a recorded site that later becomes unreachable
+		// means that assumptions on the way to it have become contradictory (vacuous proofs)
+		if k := returnOrdinal(fr); k >= 0 {
+			e.emitCover(st, fmt.Sprintf("%s/cover:site:return#%d", name, k), "this return site is reachable")
+		}
 	}
 	e.checkExitLocks(st, fr, blk, false)
 	// functions running under a caller's lock: changes of notify-on-change state must have been broadcast
@@ -798,4 +803,24 @@ func (e *Engine) calledInPackage(fn *ssa.Function) bool {
 		}
 	}
 	return e.calledFns[fn]
+}
+
+// returnOrdinal: index (in block order) of the Return instruction the top frame is exiting through.
+func returnOrdinal(fr *Frame) int {
+	if fr.Block == nil {
+		return -1
+	}
+	k := 0
+	for _, b := range fr.Fn.Blocks {
+		if len(b.Instrs) == 0 {
+			continue
+		}
+		if _, ok := b.Instrs[len(b.Instrs)-1].(*ssa.Return); ok {
+			if b == fr.Block {
+				return k
+			}
+			k++
+		}
+	}
+	return -1
 }
